@@ -100,7 +100,7 @@ package outputstream
 //@   assume@after iterator.Iterator.Last#0 : never-empty: callres
 //@   assume@after iterator.Iterator.Prev#0 : sentinel-kept: callres
 //@   assume@after unmarshalMessageBatch#0 : stored-by-add: len(callres.Messages) >= 1
-//@   modifies *
+//@   modifies *, !main.FSM, !maptype(map[uint64][]byte)
 
 // A new stream is well-formed: database open, cache empty, lastseen is the sentinel batch 0.
 //@ func NewOutputStream
@@ -117,3 +117,11 @@ package outputstream
 //@ guard OutputStream.messagesCache by OutputStream.cacheMu
 //@ func OutputStream.getUnlocked
 //@   requires locks-held: os.messagesMu.writerSem == 1 || os.messagesMu.readerSem >= 1
+
+// ---------------------------------------------------------------------------
+// C02: which inputs have output in the store (ghost set, keyed by the raft
+// index of the input, robust.idxOf). Delete removes the batch of one input.
+//@ ghostfield OutputStream.stored set
+//@ func OutputStream.Delete
+//@   ensures assumed-deleted: result == nil ==> (forall k uint64 :: os.stored[k] <==> old(os.stored[k]) && k != idxOf(inputID.Id))
+//@   modifies OutputStream.stored[os]
